@@ -447,4 +447,5 @@ func gen(g *vh.Gen) {
 		g.Emit("pop3", vh.HS(flipCase(g, plainLocal(g), 0.3)+"@"+flipCase(g, genDomain(g), 0.2)))
 	}
 	genLive(g)
+	genHist(g)
 }
